@@ -654,3 +654,126 @@ def c05(p, tier, replay):
         "three-valued oracle: pairs that differ only by transparent grouping (1-field struct vs its field, array vs repeated fields, tuple nesting) "
         "are 'dontcare' - the property's two sentences do not decide them; they are only checked for absence of panics",
         "library format versions 0 and 1 are not produced by the current writer; their schema sections are covered by C13"])
+
+# ------------------------------------------------------------------------------------------------
+# C08: I/O faults and chunking (Stream.tla -> plans -> real save/load -> StreamTrace.tla)
+# ------------------------------------------------------------------------------------------------
+def stream_validate(obs_path, name):
+    r = vlib.run_tlc("StreamTrace.tla", "StreamTrace.cfg", name, workers=8, timeout=3000,
+                     extra_env={"OBS": obs_path}, java_opts="-Xss1g -Xmx12g")
+    if r["violated"]:
+        raise ToolError("StreamTrace: unexpected TLC error (see %s)" % r["out"])
+    rej = obs_path + ".rej"
+    vlib.printed_json(r["out"], rej)
+    return r["stats"], {json.loads(l)["i"] - 1: json.loads(l)["verdict"] for l in open(rej)}
+
+@prop("C08")
+def c08(p, tier, replay):
+    v = Verdict(p, tier)
+    binp = vlib.cargo_build("stream")
+    plans = os.path.join(WORK, "stream_%s.ndjson" % tier)
+    if replay:
+        rec = json.load(open(replay))["record"]
+        open(plans, "w").write(json.dumps({"dir": rec["dir"], "plan": rec["plan"]}) + "\n")
+        stats = {"generated": 0, "distinct": 0}
+    else:
+        r = vlib.run_tlc("StreamMC.tla", "StreamMC_%s.cfg" % tier, "streammc_" + tier, workers=8, timeout=3000)
+        if r["violated"]:
+            raise ToolError("StreamMC: TLC reports a violation in the specification itself (see %s)" % r["out"])
+        stats = r["stats"]
+        if vlib.printed_json(r["out"], plans) == 0:
+            raise ToolError("StreamMC produced no plans")
+    obs = os.path.join(WORK, "stream_%s.obs" % tier)
+    vlib.run_bin(binp, ["plans", plans, obs])
+    tstats, verdicts = stream_validate(obs, "streamtrace_" + tier)
+    observations = [json.loads(l) for l in open(obs)]
+    for i, why in sorted(verdicts.items()):
+        o = observations[i]
+        v.report("c08.trace." + why.split(":")[0].replace(" ", "_")[:40], {"t": None, "mode": o["mode"], "dir": o["dir"]},
+                 "%s %s %s plan=%s :: %s" % (o["dir"], o["subject"], o["mode"], json.dumps([a["a"] for a in o["plan"]]), why), o)
+    nplan = len(observations)
+    # fault enumeration on the real byte offsets, 1-byte / half chunking, interrupt before every call
+    off = os.path.join(WORK, "stream_%s.offsets" % tier)
+    noff = 0
+    if not replay:
+        vlib.run_bin(binp, ["offsets", off, tier], timeout=6000)
+        ostats, overd = stream_validate(off, "streamoffs_" + tier)
+        offobs = [json.loads(l) for l in open(off)]
+        noff = len(offobs)
+        for i, why in sorted(overd.items()):
+            o = offobs[i]
+            v.report("c08.offsets." + why.split(":")[0].replace(" ", "_")[:40], {"t": None, "mode": o["mode"], "dir": o["dir"]},
+                     "%s %s %s plan=%s :: %s" % (o["dir"], o["subject"], o["mode"], json.dumps(o["plan"]), why), o)
+        tstats = {"distinct": tstats["distinct"] + ostats["distinct"], "generated": tstats["generated"] + ostats["generated"]}
+    samples = [{"dir": o["dir"], "subject": o["subject"], "container": o["mode"], "plan": [a["a"] for a in o["plan"]],
+                "events": o["events"]["head"][:6], "result": o["result"]} for o in observations if len(o["plan"]) >= 4][:3]
+    cov = {"states": stats["distinct"] + tstats["distinct"], "transitions": stats["generated"] + tstats["generated"],
+           "traces_validated_against_impl": nplan + noff, "evaluations": nplan + noff,
+           "distinct_nontrivial": len([o for o in observations if any(a["a"] != "All" for a in o["plan"])]) + noff,
+           "rule": "every terminal behaviour of StreamMC (all environment schedules of All/One/Half/Intr/Fail(kind)/Zero/FailFlush up to MaxPlan actions) as a fault "
+                   "plan x 2 subjects x 5 containers x {save, load}; plus every byte offset of the real streams x 4 error kinds, 1-byte and half chunking, an "
+                   "interrupt before every call; non-trivial = the plan contains something other than 'accept all'",
+           "samples": samples, "exhaustive": not replay,
+           "explanation": "TLC explores Stream.tla (write_all / read_exact loops against an adversarial environment) and proves AcceptedIsPrefix, FaultSurfaces, "
+                          "ChunkIndependent and (liveness) Terminates; each behaviour is a fault plan executed by the instrumented Write/Read against the real "
+                          "save / load; the recorded I/O event traces are validated by TLC against StreamTrace.tla (interrupted calls retried, faults surface "
+                          "as errors, no error without a fault, accepted bytes a prefix of the fault-free output, no panic, no hang)"}
+    return v.finish("model_checking", cov, [
+        "the accepted-prefix clause is evaluated at the first reported failure (a Drop that afterwards tries to finish the stream is not forbidden by the property)",
+        "encrypted streams use a random nonce: their prefix clause is checked by decrypting what was accepted and comparing with the plain stream",
+        "hang = more than 5,000,000 I/O calls in one save/load"])
+
+# ------------------------------------------------------------------------------------------------
+# C14: encrypted files load only when intact and with the right password
+# ------------------------------------------------------------------------------------------------
+@prop("C14")
+def c14(p, tier, replay):
+    v = Verdict(p, tier)
+    r = vlib.run_tlc("CryptoFrame.tla", "CryptoFrame_%s.cfg" % tier, "cryptoframe_" + tier, workers=4, timeout=1200, coverage=True)
+    if r["violated"]:
+        raise ToolError("CryptoFrame: TLC reports a violation in the specification itself (see %s)" % r["out"])
+    zero = vlib.coverage_zero_actions(r["text"], ["ReadNonce", "Deliver", "Finish", "NextChunk"])
+    if zero:
+        raise ToolError("CryptoFrame: actions never taken (vacuous): %s" % zero)
+    binp = vlib.cargo_build("stream")
+    out = os.path.join(WORK, "c14_%s.out" % tier)
+    vlib.run_bin(binp, ["tamper", tier, out], timeout=6000)
+    evals, nontrivial = 0, 0
+    samples = []
+    for line in open(out):
+        o = json.loads(line)
+        k = o["kind"]
+        if k == "frame":
+            # binding: the real file has exactly the framing the model describes
+            if not o["ends_exactly"]:
+                v.report("c14.framing", {"t": None}, "real encrypted stream of %s is not nonce + {len, body}*: %s" % (o["subject"], o), o)
+            samples.append({"subject": o["subject"], "file_len": o["len"], "chunks(offset,len)": o["chunks"]})
+        elif k == "intact":
+            evals += 1
+            if o["result"] != "ok-same":
+                v.report("c14.intact", {"t": None}, "intact file of %s does not load: %s" % (o["subject"], o["result"]), o)
+        elif k in ("flip", "cut", "wrongkey", "wrongpassword", "filecut"):
+            v.report("c14." + k, {"t": None}, "%s" % json.dumps(o)[:300], o)
+        elif k == "flips_done":
+            evals += o["positions"] * o["values"]; nontrivial += o["positions"] * o["values"]
+        elif k == "cuts_done":
+            evals += o["cuts"]; nontrivial += o["cuts"]
+        elif k == "passwords_done":
+            evals += o["n"]; nontrivial += o["n"]
+        elif k == "filecuts_done":
+            evals += o["n"]; nontrivial += o["n"]
+        elif k == "rightpassword":
+            if o["result"] != "ok-same":
+                v.report("c14.rightpassword", {"t": None}, "file does not load with its own password: %s" % o["result"], o)
+    cov = {"states": r["stats"]["distinct"], "transitions": r["stats"]["generated"], "traces_validated_against_impl": evals,
+           "evaluations": evals, "distinct_nontrivial": nontrivial,
+           "rule": "model: every single-cell modification (every value for a length field), every truncation offset, wrong key, over a multi-chunk framing; "
+                   "real files: every byte position x replacement values of a small file, all framing regions and sampled body positions of a 3-chunk "
+                   "file, every truncation length, wrong keys / passwords incl. prefix and suffix variants, load_encrypted_file on every file prefix",
+           "samples": samples, "exhaustive": True,
+           "explanation": "TLC proves TamperRejected on CryptoFrame.tla (CryptoReader framing state machine with an ideal AEAD): no modification, truncation or "
+                          "other key reaches Done; the real encrypted files are checked to have exactly that framing and every enumerated tampering is "
+                          "loaded with the real CryptoReader / load_encrypted_file: always an error, never a value, never a panic"}
+    return v.finish("model_checking", cov, [
+        "AES-256-GCM of `ring` is an ideal AEAD (forgery probability 2^-128 treated as 0)",
+        "the nonce is random per file: tampering is enumerated on freshly written files"])
